@@ -232,7 +232,9 @@ fn one_map(cx: &mut Ctx, rng: &mut Rng, i: u64) {
         // duplicate assignment is rejected
         if let Some((n, t, v)) = entries.first() {
             let line = format!("    const {n}: {} = {};\n", render_ty(t), render_val_dec(v));
-            let dup = t1.replacen(&line, &format!("{line}{line}"), 1);
+            // the same assignment twice, or (every other map) a second assignment of another value
+            let second = if i % 2 == 0 { line.clone() } else { format!("    const {n}: {} = {};\n", render_ty(t), render_val_dec(&random_val(t, &mut cx.rng(&[i, 77])))) };
+            let dup = t1.replacen(&line, &format!("{line}{second}"), 1);
             if dup != t1 {
                 let r = if module == "witness" {
                     call(|| WitnessValues::parse_from_str(&dup)).map(|_| ())
@@ -309,6 +311,7 @@ fn one_map(cx: &mut Ctx, rng: &mut Rng, i: u64) {
     // duplicate key rejected
     if let Some((n, t, v)) = entries.first() {
         let entry = format!("\"{n}\":{{\"value\":\"{}\",\"type\":\"{}\"}}", render_val_dec(v), render_ty(t));
+        let entry = if i % 2 == 0 { entry } else { format!("\"{n}\":{{\"value\":\"{}\",\"type\":\"{}\"}}", render_val_dec(&random_val(t, &mut cx.rng(&[i, 78]))), render_ty(t)) };
         let dup = format!("{{{entry},{}", &js[1..]);
         let r = call(|| serde_json::from_str::<WitnessValues>(&dup)).map(|_| ());
         if !r.is_err() {
